@@ -113,3 +113,23 @@ def stages(case):
     if not bad:
         return taylor_replay(dict(group='acceleration-stages'))
     return dict(reproduced=bool(bad), failing=bad[:3])
+
+
+@reg('C17.alias')
+def alias(case):
+    """the two Richardson sweeps remove the aliasing terms a r^m + b r^2m of geometrically spaced circles (exact rational data)"""
+    from fractions import Fraction as F
+    import numdifftools.fornberg as fb
+    bad = []
+    for m in (8, 16):
+        for ratio in (F(8, 5), F(13, 10)):
+            rs = [F(1, 2) * ratio ** k for k in range(5)]
+            L = np.array([F(3), F(-2)], dtype=object); a = np.array([F(5), F(7)], dtype=object); b = np.array([F(-4), F(9)], dtype=object)
+            bs = [L + a * r ** m + b * r ** (2 * m) for r in rs]
+            ext = fb._extrapolate(bs, rs, m)
+            dev = max(abs(float(v) - float(l)) for row in ext for v, l in zip(row, L))
+            if len(ext) != len(rs) - 2 or not dev <= 1e-9:
+                bad.append(dict(m=m, ratio=str(ratio), extrapolants=[[float(v) for v in row] for row in ext][:2], expected=[float(l) for l in L], max_deviation=dev))
+    if not bad:
+        return taylor_replay(dict(group='aliasing-removed'))
+    return dict(reproduced=bool(bad), failing=bad[:3])
